@@ -19,7 +19,7 @@ RULE = ("random programs / trunk-heads programs (diamonds, leaves not requiring 
         "in the default set or the default sets overlap; distinct = case sha1")
 ASSUMPTIONS = ["reference default sets are behavioural (autograd reachability on twin / cut-twin graphs), cross-checked with the "
                "generator's symbolic dependency tracker"]
-N = {"quick": (900, 1100, 24), "thorough": (120000, 144000, 2000)}
+N = {"quick": (900, 1100, 24), "thorough": (360000, 432000, 6000)}
 TOL = {"float64": 1e-12, "float32": 1e-5}
 
 
